@@ -225,6 +225,9 @@ pub struct World {
     pub truncated: bool,
     direct_started: usize,
     pub effects: u32,
+    /// effect counter at the moment a to-be-held RPC was first seen pending
+    hold_seen: std::collections::BTreeMap<u64, u32>,
+    release_holds: bool,
     /// virtual wall clock on the 5 s grid: ticks + downtimes (settle milliseconds excluded)
     grid_s: u64,
     /// per stored state key: (grid time when Pending was written, seconds already aged)
@@ -305,6 +308,8 @@ impl World {
             truncated: false,
             direct_started: 0,
             effects: 0,
+            hold_seen: std::collections::BTreeMap::new(),
+            release_holds: false,
             grid_s: 0,
             pending_meta: std::collections::BTreeMap::new(),
             crash_pending: None,
@@ -437,6 +442,15 @@ impl World {
             self.shared.lock().unwrap().push(Ev::Panic { msg });
         }
         self.observe();
+        if !self.scn.hold.is_empty() {
+            let uids: Vec<u64> = self.shared.lock().unwrap().pending.iter().map(|r| r.uid).collect();
+            for u in uids {
+                if self.scn.hold.iter().any(|(ord, _)| *ord as u64 + 1 == u) {
+                    let e = self.effects;
+                    self.hold_seen.entry(u).or_insert(e);
+                }
+            }
+        }
         self.shared.lock().unwrap().win += 1;
     }
 
@@ -556,6 +570,14 @@ impl World {
         (0..self.scn.htlcs.len()).filter(|h| !self.delivered[*h]).collect()
     }
 
+    /// ordinal of a pending RPC among all non-getinfo arrivals of the scenario (uids start at 1)
+    fn is_held(&self, r: &PendingRpc) -> bool {
+        if self.release_holds {
+            return false;
+        }
+        self.scn.hold.iter().any(|(ord, m)| r.uid == *ord as u64 + 1 && self.effects < self.hold_seen.get(&r.uid).cloned().unwrap_or(self.effects) + *m as u32)
+    }
+
     fn frozen_hash(&self) -> Option<([u8; 32], u16)> {
         self.scn.freeze.map(|(p, k)| (self.scn.payments[p as usize % self.scn.payments.len()].hash(), k))
     }
@@ -578,6 +600,7 @@ impl World {
         s.pending
             .iter()
             .filter(|r| !self.is_frozen(&s, r))
+            .filter(|r| !self.is_held(r))
             .filter(|r| match r.method.as_str() {
                 "pay" => false,
                 "waitsendpay" => s.node.waitsendpay(&r.params).is_some(),
@@ -589,7 +612,7 @@ impl World {
 
     fn running_pays(&self) -> Vec<u64> {
         let s = self.shared.lock().unwrap();
-        s.pending.iter().filter(|r| r.method == "pay").filter(|r| !self.is_frozen(&s, r)).map(|r| r.uid).collect()
+        s.pending.iter().filter(|r| r.method == "pay").filter(|r| !self.is_frozen(&s, r)).filter(|r| !self.is_held(r)).map(|r| r.uid).collect()
     }
 
     fn pending_parts(&self) -> Vec<usize> {
@@ -976,6 +999,11 @@ impl World {
             if let Some(h) = u.first() {
                 self.deliver(lt, *h, false);
                 idle_ticks = 0;
+                continue;
+            }
+            if !self.release_holds && !self.scn.hold.is_empty() && !self.shared.lock().unwrap().pending.is_empty() {
+                // nothing else can happen: withheld RPCs are answered now
+                self.release_holds = true;
                 continue;
             }
             let unanswered = (0..self.scn.htlcs.len()).any(|h| self.delivered[h] && self.answered[h].is_none());
